@@ -26,6 +26,10 @@ func (e *Engine) ownerUnit(prop string) *Unit {
 	u := newUnit(e, "owner", e.root)
 	u.props = []string{prop}
 	for _, o := range owners {
+		if o.Type == "var" {
+			e.ownerVars(u, o, prop)
+			continue
+		}
 		t, err := e.resolveType(e.root.Types, o.Type)
 		if err != nil {
 			u.fail("%s:%d: %v", shortFile(o.File), o.Line, err)
@@ -143,4 +147,99 @@ func (e *Engine) ownerUnit(prop string) *Unit {
 		u.oblige(st, o.Type+"."+strings.Join(o.Fields, "+"), "owner", []string{prop}, goal, 0, info)
 	}
 	return u
+}
+
+// ownerVars: `owner var: x, y by init:x, init:y` - package-level variables of the root package that are
+// written (assigned, inc/dec'd, address taken) only by the named units; with their initializers under
+// contract (init:x) this makes the initializers' postconditions invariants of the package.
+func (e *Engine) ownerVars(u *Unit, o *Owner, prop string) {
+	vars := map[types.Object]bool{}
+	for _, f := range o.Fields {
+		obj, ok := e.root.Types.Scope().Lookup(f).(*types.Var)
+		if !ok {
+			u.fail("%s:%d: owner var: unknown package variable %s", shortFile(o.File), o.Line, f)
+			return
+		}
+		vars[obj] = true
+	}
+	allowed := map[string]bool{}
+	for _, w := range o.Writers {
+		allowed[w] = true
+	}
+	offenders := map[string]bool{}
+	for fn, fi := range e.funcs {
+		if fi.decl == nil || fi.decl.Body == nil {
+			continue
+		}
+		info := fi.pkg.TypesInfo
+		name := funcKey(fn)
+		varOf := func(x ast.Expr) (types.Object, bool) {
+			for {
+				switch y := ast.Unparen(x).(type) {
+				case *ast.IndexExpr:
+					x = y.X
+					continue
+				case *ast.SliceExpr:
+					x = y.X
+					continue
+				case *ast.SelectorExpr:
+					if _, isPkg := info.Uses[identOf(y.X)].(*types.PkgName); isPkg {
+						if obj := info.Uses[y.Sel]; vars[obj] {
+							return obj, true
+						}
+					}
+					return nil, false
+				case *ast.Ident:
+					if obj := info.ObjectOf(y); obj != nil && vars[obj] {
+						return obj, true
+					}
+					return nil, false
+				}
+				return nil, false
+			}
+		}
+		hit := func(pos token.Pos, what string) {
+			if !allowed[name] {
+				offenders[fmt.Sprintf("%s writes %s at %s:%d", name, what, shortFile(fi.pkg.Fset.Position(pos).Filename), fi.pkg.Fset.Position(pos).Line)] = true
+			}
+		}
+		ast.Inspect(fi.decl.Body, func(n ast.Node) bool {
+			switch x := n.(type) {
+			case *ast.AssignStmt:
+				for _, l := range x.Lhs {
+					if v, ok := varOf(l); ok {
+						hit(l.Pos(), v.Name())
+					}
+				}
+			case *ast.IncDecStmt:
+				if v, ok := varOf(x.X); ok {
+					hit(x.Pos(), v.Name())
+				}
+			case *ast.UnaryExpr:
+				if x.Op == token.AND {
+					if v, ok := varOf(x.X); ok {
+						hit(x.Pos(), "&"+v.Name())
+					}
+				}
+			}
+			return true
+		})
+	}
+	var offs []string
+	for k := range offenders {
+		offs = append(offs, k)
+	}
+	sort.Strings(offs)
+	goal := TTrue
+	info := fmt.Sprintf("only %s write the package variables %s", strings.Join(o.Writers, ", "), strings.Join(o.Fields, ","))
+	if len(offs) > 0 {
+		goal = TFalse
+		info += "; offenders: " + strings.Join(offs, "; ")
+	}
+	u.oblige(newState(), "var."+strings.Join(o.Fields, "+"), "owner", []string{prop}, goal, 0, info)
+}
+
+func identOf(x ast.Expr) *ast.Ident {
+	id, _ := ast.Unparen(x).(*ast.Ident)
+	return id
 }
